@@ -10,6 +10,7 @@ import Orda.Proofs.DocMixed
 import Orda.Proofs.DocCausal
 import Orda.Proofs.DocLocalRemote
 import Orda.Proofs.DocNet
+import Orda.Proofs.ListNet
 namespace Orda.Props.C01
 open Orda
 
@@ -246,5 +247,30 @@ theorem doc_quiescent_replicas_agree (cuid : Nat → String) (n : Nat) (net : Ne
     (hsi : net.nodes[i].r.state = .doc di) (hsj : net.nodes[j].r.state = .doc dj) :
     ASim di dj ∧ di.view.canon = dj.view.canon :=
   net_quiescent_converged net h hq i j hi hj di dj hsi hsj
+
+/-! ### lists END TO END: no causality hypothesis
+`LNet` (Proofs/ListNet): the same system as `DNet` for the List datatype — n replicas with pairwise distinct client ids,
+one server log, ANY public call (also refused ones, inserts of zero values, calls of other datatypes), pushes and pulls in
+any interleaving.  `LCausal` (the hypothesis of `list_full_state_converges`) is DERIVED. -/
+
+open Orda.LNet in
+/-- every replica's list is the remote application of the operations it has applied, and that sequence is causal -/
+theorem list_replicas_are_causal_replays (cuid : Nat → String) (n : Nat) (net : LNet.Net) (h : LNet.Reach cuid n net) :
+    ∃ applied : Nat → List LOp, ∀ i nd, net.nodes[i]? = some nd →
+      nd.r.state = .list (Rga.empty.applyAllL (applied i)) ∧ LCausal (applied i) :=
+  lnet_nodes_applied net h
+
+open Orda.LNet in
+/-- two replicas that have the same operations hold the SAME list state: order, values, value timestamps, tombstones, Size -/
+theorem list_same_operations_same_state (cuid : Nat → String) (n : Nat) (net : LNet.Net) (h : LNet.Reach cuid n net)
+    (i j : Nat) (hi : i < net.nodes.length) (hj : j < net.nodes.length) (hso : LNet.SameOps net i j) :
+    net.nodes[i].r.state = net.nodes[j].r.state :=
+  lnet_same_operations_same_state net h i j hi hj hso
+
+open Orda.LNet in
+theorem list_quiescent_replicas_agree (cuid : Nat → String) (n : Nat) (net : LNet.Net) (h : LNet.Reach cuid n net)
+    (hq : LNet.Quiescent net) (i j : Nat) (hi : i < net.nodes.length) (hj : j < net.nodes.length) :
+    net.nodes[i].r.state = net.nodes[j].r.state :=
+  lnet_quiescent_converged net h hq i j hi hj
 
 end Orda.Props.C01
